@@ -141,6 +141,26 @@ static void cell_converse(const struct cell *c)
         cstl_guarded_ptr_set(live, blk2);
         cstl_guarded_ptr_set(src, blk);
         d = storage(sizeof(*d), pr, live); d2 = storage(sizeof(*d2), pr, live);
+        {
+            /* re-seating after a bytewise relocation: the destination holds the bytes of the very object that is copied
+             * into it (same pointer value, foreign self), and an EMPTY pointer copied over zeroed storage (same pointer
+             * value NULL): "the destination is (re)initialised regardless of its current state" */
+            struct cstl_guarded_ptr *r = vrt_alloc(sizeof(*r)), *e0 = vrt_alloc(sizeof(*e0)), *z = vrt_alloc(sizeof(*z));
+            void *volatile g2 = NULL;
+            memcpy(r, src, sizeof(*r));
+            MUST_NOT(cstl_guarded_ptr_copy(r, src), "guarded.copy-to-relocated-bytes-of-the-source");
+            MUST_NOT(g2 = cstl_guarded_ptr_get(r), "guarded.get-after-reseating");
+            VRT_CHECK(g2 == blk, "guard.proper-use-wrong.guarded.reseat", "get after re-seating yields another pointer");
+            cstl_guarded_ptr_init(e0);
+            memset(z, 0, sizeof(*z));
+            MUST_NOT(cstl_guarded_ptr_copy(z, e0), "guarded.copy-empty-to-zeroed-storage");
+            MUST_NOT(g2 = cstl_guarded_ptr_get(z), "guarded.get-after-copy-of-empty");
+            VRT_CHECK(g2 == NULL, "guard.proper-use-wrong.guarded.copy-empty", "copy of an empty pointer is not empty");
+            memcpy(z, e0, sizeof(*z));
+            MUST_NOT(cstl_guarded_ptr_copy(z, e0), "guarded.copy-empty-to-relocated-bytes");
+            MUST_NOT((void)cstl_guarded_ptr_get_const(z), "guarded.get-after-copy-of-empty");
+            vrt_free(r); vrt_free(e0); vrt_free(z);
+        }
         switch (v) {
         case 0: MUST_NOT(cstl_guarded_ptr_init(d), "guarded.init"); MUST_NOT(cstl_guarded_ptr_set(d, blk), "guarded.set"); break;
         case 1: MUST_NOT(cstl_guarded_ptr_set(d, blk), "guarded.set-on-raw-storage"); break;
